@@ -86,6 +86,9 @@ class Session(EventRule):
 
     def classify(self, I, w, ci, args):
         p = ci.nresolved or ci.npath or ''
+        if ci.npath in ('core::str::<impl str>::is_empty', 'core::slice::<impl [T]>::is_empty') and args \
+                and ((args[0][0] == 'sym' and args[0][1] in TEXT_ATOMS) or args[0] == TOP):
+            return 'EMPTY?'           # "is this text empty?" decides a path: keep the question in the word
         if p.endswith('::next') and 'core::iter::range' in p and args and args[0][0] == 'ref':
             r = I.read(w, args[0][1])
             if r[0] == 'adt' and r[1].endswith('range::Range') and all(x[0] in ('sym', 'symoff') for x in r[3]):
@@ -107,6 +110,8 @@ class Session(EventRule):
         return super().on_call(I, w, ci, args)
 
     def outcomes(self, I, w, ci, args, ev):
+        if ev == 'EMPTY?':
+            return [('T', TRUE), ('F', FALSE)]
         if ev == 'KEY':
             out = [('none', none())]
             inp = I.adts['input::Input']
@@ -149,6 +154,8 @@ class Session(EventRule):
         return atom_name(a)
 
     def label(self, I, w, ev, outcome, ci, args):
+        if ev == 'EMPTY?':
+            return 'IF(empty(%s)):%s' % (args[0][1] if args[0][0] == 'sym' else 'var', outcome)
         if ev == 'SINK_WRITE':
             if 'sink' in outcome:
                 return 'W!'
@@ -203,6 +210,32 @@ class Session(EventRule):
         if len(trace) < 60:
             trace = trace + (lab,)
         return [w.with_st((key, trace))]
+
+
+TEXT_ATOMS = ('line', 'line_range', 'inserted', 'recalled', 'prompt', 'typed')
+
+
+def shape(word):
+    """The word as the rules about *what* is done read it: flushes are C15's business and dropped; a write skipped because
+    the text was found empty is the write of that (empty) text."""
+    out = []
+    for l in word:
+        if l == 'F':
+            continue
+        if l.startswith('IF(empty(') and l.endswith('):F'):
+            continue
+        if l.startswith('IF(empty(') and l.endswith('):T'):
+            out.append('W:' + l[len('IF(empty('):-len(')):T')])
+            continue
+        out.append(l)
+    return tuple(out)
+
+
+def shaped(words):
+    """{key: set((word, status))} or set((word, status)) with every word normalised by `shape`"""
+    if isinstance(words, dict):
+        return {k: {(shape(w), st) for w, st in ws} for k, ws in words.items()}
+    return {(shape(w), st) for w, st in words}
 
 
 def process_byte_words(lib):
